@@ -931,7 +931,7 @@ const PickDecl = `func pick(n int) any {
 
 // Base weights per profile.
 func baseCfg(profile string) Cfg {
-	c := Cfg{Profile: profile, MaxDepth: 4, MaxStmts: 22, EffPct: 25, DeadPct: 4, ElsePct: 50, Quar: map[string]bool{"A1": true, "A2": true}, NFuncs: 60, NFiles: 3}
+	c := Cfg{Profile: profile, MaxDepth: 4, MaxStmts: 22, EffPct: 25, DeadPct: 4, ElsePct: 50, Quar: map[string]bool{}, NFuncs: 60, NFiles: 3}
 	c.W = map[SK]int{SDecl: 6, SAssign: 6, SIncDec: 3, SEff: 8, SYield: 14, SBlock: 3, SIf: 9, SSwitch: 6, STypeSwitch: 3, SFor: 9,
 		SBreak: 5, SContinue: 4, SReturn: 2}
 	c.ForForm = [5]int{5, 3, 3, 1, 3}
